@@ -832,8 +832,11 @@ func (m *Manager) computeV2ParentMap() map[types.Hash256]int {
 func updateTxnProofs(txn *types.V2Transaction, updateElementProof func(*types.StateElement), numLeaves uint64) (valid bool) {
 	valid = true
 	updateProof := func(e *types.StateElement) {
+		if e.LeafIndex == types.UnassignedLeafIndex {
+			return // ephemeral element: it has no proof yet
+		}
 		valid = valid && e.LeafIndex < numLeaves
-		if !valid || e.LeafIndex == types.UnassignedLeafIndex {
+		if !valid {
 			return
 		}
 		*e = e.Copy()
